@@ -3,7 +3,7 @@
 From Coq Require Import String Ascii.
 From Coq Require Import List Arith Bool Lia ZArith QArith Qabs.
 Import ListNotations.
-From TF Require Import Base Tree TreeIdx TreeEval.
+From TF Require Import Base Tree TreeIdx TreeEval TreeCRk.
 Open Scope nat_scope.
 
 Definition sy := (nat * nat)%type.            (* (identifier, arity) *)
@@ -89,6 +89,23 @@ Definition chk_crk (c : list (list nat) * list (list nat) * list (list nat)) : b
   | Some (cs, bs) =>
     natlists_eqb (transpose (length arrs) cs) com && natlists_eqb (transpose (length arrs) bs) bor
   | None => false
+  end.
+(* the recursive definition TreeCRk.crk_rec, evaluated directly on the parsed trees *)
+Fixpoint parse_all (arrs : list (list nat)) : option (list (tree nat)) :=
+  match arrs with
+  | [] => Some []
+  | a :: r => match parse (fun n : nat => n) a, parse_all r with
+              | Some t, Some ts => Some (t :: ts)
+              | _, _ => None
+              end
+  end.
+Definition chk_crk_rec (c : list (list nat) * list (list nat) * list (list nat)) : bool :=
+  let '(arrs, com, bor) := c in
+  match parse_all arrs with
+  | Some (t0 :: ts') =>
+    let '(cs, bs) := region_of (crk_rec (fun n : nat => n) (S (depth t0)) (t0 :: ts') (map (fun _ => 0) arrs)) in
+    natlists_eqb (transpose (length arrs) cs) com && natlists_eqb (transpose (length arrs) bs) bor
+  | _ => false
   end.
 (* k = 2: the k-tree walk and the two-tree walk return the same region *)
 Definition chk_crk_vs_cr2 (c : list nat * list nat) : bool :=
